@@ -67,16 +67,28 @@ impl Resolver {
     }
 
     fn lookup_exact(&mut self, name: &Rc<String>, context: Namespace) -> bool {
+        // Each kind of definition has its own evaluator, and a name
+        // means here what that evaluator can look up: a prefix refers to
+        // prefixes, a quantity to base units and quantities, and a unit
+        // to units, of which the prefixes that can stand alone are some.
         let to_check: &[Namespace] = match context {
-            Namespace::Quantity => &[Namespace::Quantity],
-            _ => &[Namespace::Unit, Namespace::Prefix, Namespace::Quantity],
+            Namespace::Prefix => &[Namespace::Prefix],
+            Namespace::Quantity => &[Namespace::Unit, Namespace::Quantity],
+            _ => &[Namespace::Unit, Namespace::Prefix],
         };
         for namespace in to_check.iter().copied() {
             let id = Id {
                 namespace,
                 name: name.clone(),
             };
-            if self.input.contains_key(&id) {
+            let usable = match self.input.get(&id).map(|def| &**def) {
+                None => false,
+                Some(&Def::BaseUnit { .. }) => true,
+                Some(_) if context == Namespace::Quantity && namespace == Namespace::Unit => false,
+                Some(&Def::Prefix { is_long, .. }) => context == Namespace::Prefix || is_long,
+                Some(_) => true,
+            };
+            if usable {
                 self.visit(&id);
                 return true;
             }
@@ -87,6 +99,10 @@ impl Resolver {
     fn lookup_with_prefix(&mut self, name: &Rc<String>, context: Namespace) -> bool {
         if self.lookup_exact(name, context) {
             return true;
+        }
+        // Only units are also read with a prefix, or as a plural.
+        if context != Namespace::Unit {
+            return false;
         }
         let mut found = vec![];
         for prefix in self.input.keys() {
@@ -104,7 +120,7 @@ impl Resolver {
 
     fn lookup(&mut self, name: &Rc<String>, context: Namespace) -> bool {
         self.lookup_with_prefix(name, context)
-            || name.ends_with('s') && {
+            || context == Namespace::Unit && name.ends_with('s') && {
                 let name = &Rc::new(name[0..name.len() - 1].to_owned());
                 self.lookup_with_prefix(name, context)
             }
